@@ -228,6 +228,12 @@ package cli
 //@   decreases p
 //@   trigger term(s, p)
 
+// countLines counts terminator ends exactly like the line splitting of error messages (term)
+//@ func countLines(bs []byte) (n int)
+//@   property C17
+//@   return 1 use lines_count(bytestr(bs), len(bs))
+//@   ensures n == term(bytestr(bs), len(bs))
+
 //@ func (i *jsonInputIter) Next() (v any, ok bool)
 //@   property C17
 //@   requires i.ir.buf != nil || i.ir.rs != nil
